@@ -242,12 +242,12 @@ func vwalkAll(pre string, bt *btree, want int) {
 // Add of an arbitrary key is accepted iff it is larger, refused (false) iff equal, and panics
 // iff smaller than the last key.
 //
-//symgo:harness prop=C10 tier=quick shards=4 timeout=300 ttimeout=1700 bounds=split_2..4;0..8_keys_of_1_byte|0..6_keys_of_alternating_1,2_bytes_(thorough_0..13_keys_of_1|1,2|2,1_bytes,_0..9_keys_all_2_bytes);symbolic_key_bytes_in_an_assumed_ordering_chain;40-bit_offsets;symbolic_probe_of_1..2_bytes;one_extra_Add_of_an_arbitrary_key outside=trees_deeper_than_8_levels;keys_longer_than_2_bytes
+//symgo:harness prop=C10 tier=quick shards=4 tshards=16 timeout=300 ttimeout=3400 bounds=split_2..4;0..8_keys_of_1_byte|0..6_keys_of_alternating_1,2_bytes_(thorough_0..13_keys_of_1|1,2|2,1_bytes,_0..7_keys_all_2_bytes);symbolic_key_bytes_in_an_assumed_ordering_chain;40-bit_offsets;symbolic_probe_of_1..2_bytes;one_extra_Add_of_an_arbitrary_key outside=trees_deeper_than_8_levels;keys_longer_than_2_bytes
 func VerifC10Builder() {
 	split := 2 + rt.Pick("split", 3)
 	maxn, nlens := []int{8, 6}, 2
 	if rt.Thorough() {
-		maxn, nlens = []int{13, 13, 13, 9}, 4
+		maxn, nlens = []int{13, 13, 13, 7}, 4
 	}
 	li := rt.Pick("lens", nlens)
 	lens := vlenModes[li]
@@ -332,19 +332,26 @@ func (h vhist) changes(b int) bool {
 	return h.live[b] != h.live[b+1] || h.upd[b]
 }
 
-// vshape enumerates (by forking) every universe with at most maxn0 initial keys and, per
-// batch, between 1 and maxc[b] changes. Every prefix of choices can be completed, so there are
-// no dead ends apart from the final at-least-one-change filter.
-func vshape(hists []vhist, maxn0 int, maxc []int) []vhist {
+// vshape enumerates (by forking) every sorted universe with exactly n0 initial keys and exactly
+// cs[b] changes in batch b. Every prefix of choices can be completed (a kept key uses up an
+// initial key, an add uses up a change), so the enumeration has no dead ends.
+func vshape(hists []vhist, n0 int, cs []int) []vhist {
 	var shape []vhist
-	n0 := 0
-	nc := make([]int, len(maxc))
+	r0 := n0
+	rc := append([]int{}, cs...)
 	for {
+		done := r0 == 0
+		for _, c := range rc {
+			done = done && c == 0
+		}
+		if done {
+			return shape
+		}
 		var allowed []vhist
 		for _, h := range hists {
-			ok := !(h.live[0] && n0 >= maxn0)
-			for b := range maxc {
-				if h.changes(b) && nc[b] >= maxc[b] {
+			ok := !(h.live[0] && r0 == 0)
+			for b := range rc {
+				if h.changes(b) && rc[b] == 0 {
 					ok = false
 				}
 			}
@@ -352,25 +359,17 @@ func vshape(hists []vhist, maxn0 int, maxc []int) []vhist {
 				allowed = append(allowed, h)
 			}
 		}
-		c := rt.Pick(vname("h", len(shape)), len(allowed)+1)
-		if c == 0 {
-			break
-		}
-		h := allowed[c-1]
+		h := allowed[rt.Pick(vname("h", len(shape)), len(allowed))]
 		shape = append(shape, h)
 		if h.live[0] {
-			n0++
+			r0--
 		}
-		for b := range maxc {
+		for b := range rc {
 			if h.changes(b) {
-				nc[b]++
+				rc[b]--
 			}
 		}
 	}
-	for b := range maxc {
-		rt.Assume(nc[b] > 0)
-	}
-	return shape
 }
 
 func vuniverse(shape []vhist, lens []int, pfx string) []vent {
@@ -414,25 +413,52 @@ type vcfg struct {
 	init  int
 }
 
-// the quick tier runs a diagonal of the configuration space, thorough the full product
-var vquickCfgs = []vcfg{
+// a diagonal of the configuration space
+var vdiagCfgs = []vcfg{
 	{2, vlenModes[0], 0},
 	{3, vlenModes[1], 0},
 	{4, vlenModes[0], 1},
 	{2, vlenModes[1], 1},
 }
 
-func vpickCfg() vcfg {
-	if !rt.Thorough() {
-		return vquickCfgs[rt.Pick("cfg", len(vquickCfgs))]
+// the full product of split 2|3|4, key lengths all 1 | 1,2 | 2,1, Builder | merge
+func vfullCfgs() []vcfg {
+	var r []vcfg
+	for split := 2; split <= 4; split++ {
+		for li := 0; li < 3; li++ {
+			for init := 0; init < 2; init++ {
+				r = append(r, vcfg{split, vlenModes[li], init})
+			}
+		}
 	}
-	return vcfg{2 + rt.Pick("split", 3), vlenModes[rt.Pick("lens", len(vlenModes))], rt.Pick("init", 2)}
+	return r
 }
 
-func vmergeScenario(nb int, hists []vhist, maxn0 int, maxc []int, pfx string) {
-	cfg := vpickCfg()
+// vcombos lists the size tuples (n0, c1[, c2]) with n0 in lo..hi and the given change counts
+func vcombos(lo, hi int, cs ...[]int) [][]int {
+	var r [][]int
+	for n0 := lo; n0 <= hi; n0++ {
+		for _, c := range cs {
+			r = append(r, append([]int{n0}, c...))
+		}
+	}
+	return r
+}
+
+func vcat(xs ...[][]int) [][]int {
+	var r [][]int
+	for _, x := range xs {
+		r = append(r, x...)
+	}
+	return r
+}
+
+func vmergeScenario(hists []vhist, combos [][]int, cfgs []vcfg, pfx string, probeOld bool) {
+	cfg := cfgs[rt.Pick("cfg", len(cfgs))]
 	defer SetSplit(SetSplit(cfg.split))
-	shape := vshape(hists, maxn0, maxc)
+	combo := combos[rt.Pick("size", len(combos))]
+	nb := len(combo) - 1
+	shape := vshape(hists, combo[0], combo[1:])
 	es := vuniverse(shape, cfg.lens, pfx)
 
 	trees := make([]*btree, nb+1)
@@ -466,7 +492,7 @@ func vmergeScenario(nb int, hists []vhist, maxn0 int, maxc []int, pfx string) {
 	}
 	probe := pfx + rt.Str("probe", 1+rt.Pick("plen", maxplen))
 	for s := nb; s >= 0; s-- {
-		if s == nb || rt.Thorough() {
+		if s == nb || probeOld {
 			vprobe(vpre(s, nb), trees[s], vstage(es, s), probe)
 		}
 	}
@@ -483,28 +509,31 @@ func vpre(s, nb int) string {
 // tree) receives a batch of inserts/updates/deletes; the result is the model map, the old tree
 // still is the old map, all nodes are ordered and within the split count.
 //
-//symgo:harness prop=C10 tier=quick shards=8 timeout=400 ttimeout=3000 bounds=initial_tree_of_0..3_keys_(thorough_0..6);one_batch_of_1..2_changes_(thorough_1..3)_add/update/delete_at_every_position;quick_configurations_(split,key_lengths,initial_tree_by):(2,all_1,Builder)|(3,alternating_1/2,Builder)|(4,all_1,merge_into_empty)|(2,alternating_1/2,merge_into_empty);thorough:split_2|3|4_x_key_lengths_all_1|1,2|2,1|all_2_x_Builder|merge;symbolic_key_bytes_in_an_assumed_ordering_chain;40-bit_offsets;symbolic_probe_1..2_bytes_(quick:_1_byte_when_all_keys_have_1_byte;_old_tree_probed_in_thorough_only,_iterated_always) outside=trees_deeper_than_8_levels;keys_longer_than_2_bytes_(see_VerifC10MergePrefix);more_than_one_batch_(see_VerifC10Merge2)
+//symgo:harness prop=C10 tier=quick shards=8 tshards=16 timeout=400 ttimeout=3400 bounds=quick:initial_tree_of_0..3_keys,_one_batch_of_1..2_changes;thorough:0..2_keys_with_1..3_changes,_3..4_keys_with_1..2_changes,_5..6_keys_with_1_change;changes_=_add/update/delete_at_every_position_of_the_sorted_universe;quick_configurations_(split,key_lengths,initial_tree_by):(2,all_1,Builder)|(3,alternating_1/2,Builder)|(4,all_1,merge_into_empty)|(2,alternating_1/2,merge_into_empty);thorough:split_2|3|4_x_key_lengths_all_1|1,2|2,1_x_Builder|merge;symbolic_key_bytes_in_an_assumed_ordering_chain;40-bit_offsets;symbolic_probe_1..2_bytes_(quick:_1_byte_when_all_keys_have_1_byte);old_tree_iterated_and_checked_but_not_probed outside=trees_deeper_than_8_levels;keys_longer_than_2_bytes_(see_VerifC10MergePrefix);more_than_one_batch_(see_VerifC10Merge2)
 func VerifC10Merge() {
 	if rt.Thorough() {
-		vmergeScenario(1, vhist1, 6, []int{3}, "")
+		combos := vcat(vcombos(0, 2, []int{1}, []int{2}, []int{3}), vcombos(3, 4, []int{1}, []int{2}), vcombos(5, 6, []int{1}))
+		vmergeScenario(vhist1, combos, vfullCfgs(), "", false)
 	} else {
-		vmergeScenario(1, vhist1, 3, []int{2}, "")
+		vmergeScenario(vhist1, vcombos(0, 3, []int{1}, []int{2}), vdiagCfgs, "", false)
 	}
 }
 
-// C10 MergeAndSave, two batches in sequence (the second one works on a tree shaped by the first).
+// C10 MergeAndSave, two batches in sequence (the second one works on a tree shaped by the first);
+// all three trees are compared with their stage of the model.
 //
-//symgo:harness prop=C10 tier=thorough tshards=8 ttimeout=3000 bounds=initial_tree_of_0..4_keys;two_batches_of_1..2_changes_each;every_consistent_history_per_key_(keep/update/delete/add,_delete_then_re-add,_add_then_delete);split_2|3|4;key_lengths_all_1|1,2|2,1|all_2;Builder|merge_initial_tree;symbolic_probe outside=as_VerifC10Merge
+//symgo:harness prop=C10 tier=thorough tshards=16 ttimeout=3400 bounds=initial_tree_of_0..2_keys_and_two_batches_of_(1,1)|(1,2)|(2,1)_changes,_or_3_keys_and_(1,1);every_consistent_history_per_key_(keep/update/delete/add,_delete_then_re-add,_add_then_update/delete);the_4_configurations_of_VerifC10Merge's_quick_tier;symbolic_probe_on_all_three_trees outside=as_VerifC10Merge
 func VerifC10Merge2() {
-	vmergeScenario(2, vhist2, 4, []int{2, 2}, "")
+	combos := vcat(vcombos(0, 2, []int{1, 1}, []int{1, 2}, []int{2, 1}), vcombos(3, 3, []int{1, 1}))
+	vmergeScenario(vhist2, combos, vdiagCfgs, "", true)
 }
 
 // C10 MergeAndSave with keys that share a concrete 6-byte prefix (leaf prefix compression and
 // longer separators) and a symbolic 1..2 byte tail.
 //
-//symgo:harness prop=C10 tier=thorough tshards=8 ttimeout=3000 bounds=as_VerifC10Merge_with_0..4_initial_keys,_1..2_changes,_every_key_and_the_probe_prefixed_by_the_6_bytes_"prefix" outside=as_VerifC10Merge
+//symgo:harness prop=C10 tier=thorough tshards=16 ttimeout=3400 bounds=initial_tree_of_0..4_keys,_one_batch_of_1..2_changes;every_key_and_the_probe_prefixed_by_the_6_bytes_"prefix";the_4_configurations_of_VerifC10Merge's_quick_tier;symbolic_probe_on_both_trees outside=as_VerifC10Merge
 func VerifC10MergePrefix() {
-	vmergeScenario(1, vhist1, 4, []int{2}, "prefix")
+	vmergeScenario(vhist1, vcombos(0, 4, []int{1}, []int{2}), vdiagCfgs, "prefix", true)
 }
 
 // ------------------------------------------------------------------ RangeFrac
@@ -513,7 +542,7 @@ func VerifC10MergePrefix() {
 // produced half full leaves), built in four ways, and symbolic 1-byte range bounds:
 // the estimate is within [0,1], is 0 for an empty range, and never panics.
 //
-//symgo:harness prop=C10 tier=quick shards=4 timeout=300 ttimeout=1700 bounds=split_4;12..13_keys_(thorough_0..17)_1_symbolic_byte_each_in_an_assumed_ordering_chain;tree_made_by:Builder|merge_of_all_keys_into_empty|Builder_of_every_other_key_then_merge_of_the_rest|Builder_of_all_then_merge_deleting_every_third;org,end_symbolic_1_byte_each_(thorough_also_0_bytes_and_ixkey.Max_as_end) outside=other_split_counts;more_than_2_tree_levels;accuracy_of_the_estimate
+//symgo:harness prop=C10 tier=quick shards=4 tshards=8 timeout=300 ttimeout=3400 bounds=split_4;12..13_keys_(thorough_0..17)_1_symbolic_byte_each_in_an_assumed_ordering_chain;tree_made_by:Builder|merge_of_all_keys_into_empty|Builder_of_every_other_key_then_merge_of_the_rest|Builder_of_all_then_merge_deleting_every_third;org,end_symbolic_1_byte_each_(thorough_also_0_bytes_and_ixkey.Max_as_end) outside=other_split_counts;more_than_2_tree_levels;accuracy_of_the_estimate
 func VerifC10RangeFrac() {
 	defer SetSplit(SetSplit(4))
 	mode := rt.Pick("mode", 4)
